@@ -37,8 +37,6 @@ class FragmentSpreadsMustNotFormCycles(June2018ReleaseValidationRule):
         for selected in fragment.selection_set.selections:
             if isinstance(selected, FragmentSpreadNode):
                 if selected.name.value not in spreaded:
-                    spreaded.append(selected.name.value)
-
                     fragment = find_nodes_by_name(
                         fragments, selected.name.value
                     )
@@ -46,7 +44,9 @@ class FragmentSpreadsMustNotFormCycles(June2018ReleaseValidationRule):
                         continue  # Handled by another validator
                     fragment = fragment[0]
 
-                    self._validate_fragment(fragments, fragment, spreaded)
+                    self._validate_fragment(
+                        fragments, fragment, spreaded + [selected.name.value]
+                    )
                 else:
                     raise CycleException(fragments, self._extensions)
         return
@@ -54,7 +54,9 @@ class FragmentSpreadsMustNotFormCycles(June2018ReleaseValidationRule):
     def validate(self, fragments, **_):
         for fragment in fragments:
             try:
-                self._validate_fragment(fragments, fragment, [])
+                self._validate_fragment(
+                    fragments, fragment, [fragment.name.value]
+                )
             except CycleException as e:
                 return e.tartiflette_errors
 
